@@ -174,6 +174,11 @@ mutual
       let (s, a) := specSizeAlign ty
       { size := s, tyAlign := a, alignas := d.alignas.toNat, bitWidth := d.bitWidth.map Int.toNat, named := d.named }
         :: specMembers rest
+    | .consT d aty ty rest =>
+      -- C11 6.7.5p6: `_Alignas(type-name)` is `_Alignas(_Alignof(type-name))`
+      let (s, a) := specSizeAlign ty
+      { size := s, tyAlign := a, alignas := (specSizeAlign aty).2, bitWidth := d.bitWidth.map Int.toNat, named := d.named }
+        :: specMembers rest
 end
 
 /-- size, alignment and member placements of a whole type -/
